@@ -21,6 +21,9 @@ func controlLine(line string) {
 	case "arm":
 		gateArm(point, id)
 		fmt.Println("ARMED", point, id)
+	case "notify":
+		gateNotify(point)
+		fmt.Println("NOTIFYING", point)
 	case "release":
 		gateRelease(point, id)
 		fmt.Println("RELEASED", point, id)
